@@ -3,9 +3,13 @@
 Three-way check: (a) upstream promql.Engine (module cache) = direct oracle, (b) ts-server built from the working tree,
 fed through remote write and queried over /api/v1/query{,_range}, (c) the Coq model (coq/C18) for the modelled reducers.
 PARTIAL: functions outside the modelled list, binary operators and matchers are covered by (a) vs (b) only."""
+import fcntl
 import json
 import os
+import random
 import re
+import socket
+import time
 
 import vlib
 
@@ -14,12 +18,57 @@ PORT_BASE = 21800
 
 FN = {"rate": "FRate", "increase": "FIncrease", "delta": "FDelta", "irate": "FIrate", "idelta": "FIdelta",
       "sum_over_time": "FSum", "count_over_time": "FCount", "avg_over_time": "FAvg", "min_over_time": "FMin",
-      "max_over_time": "FMax", "last_over_time": "FLast", "changes": "FChanges", "resets": "FResets"}
+      "max_over_time": "FMax", "last_over_time": "FLast", "changes": "FChanges", "resets": "FResets",
+      "stdvar_over_time": "FStdvar", "stddev_over_time": "FStddev", "present_over_time": "FPresent",
+      "quantile_over_time": "FQuantile", "deriv": "FDeriv", "predict_linear": "FPredict"}
 AGG = {"sum": "AggSum", "avg": "AggAvg", "min": "AggMin", "max": "AggMax", "count": "AggCount"}
 
 FINDING_IDS = ["C18-empty-value-matcher-dropped", "C18-absent-label-matcher-ignored", "C18-regex-matcher-unanchored",
                "C18-rate-subsecond-range-integer-division", "C18-range-query-aggregation-over-offset",
-               "C18-range-function-step-greater-than-range", "C18-resets-empty-window-zero"]
+               "C18-range-function-step-greater-than-range", "C18-resets-empty-window-zero",
+               "C18-absent-over-time-offset-range-query", "C18-absent-negative-matcher-on-absent-label"]
+
+
+_PORT_LOCK = None   # keeps the flock on the chosen port block for the life of this process
+
+
+def _port_free(port):
+    s = socket.socket(socket.AF_INET, socket.SOCK_STREAM)
+    try:
+        s.bind(("127.0.0.1", port))
+        return True
+    except OSError:
+        return False
+    finally:
+        s.close()
+
+
+def acquire_port_block(wait=600):
+    """Pick a block of 10 ports inside 21800-21899 that no other run of this check holds (flock on a per-block file shared
+    by all trees) and on which nothing listens; None if none becomes free within `wait` seconds."""
+    global _PORT_LOCK
+    d = os.path.join(vlib.VERIF, "build", "c18-ports")
+    os.makedirs(d, exist_ok=True)
+    order = list(range(10))
+    random.Random(os.getpid()).shuffle(order)
+    deadline = time.time() + wait
+    while True:
+        for b in order:
+            f = open(os.path.join(d, "block%d.lock" % b), "w")
+            try:
+                fcntl.flock(f, fcntl.LOCK_EX | fcntl.LOCK_NB)
+            except OSError:
+                f.close()
+                continue
+            base = PORT_BASE + 10 * b
+            if all(_port_free(base + i) for i in range(10)):
+                _PORT_LOCK = f
+                return base
+            fcntl.flock(f, fcntl.LOCK_UN)   # something foreign listens inside this block: never start on it
+            f.close()
+        if time.time() > deadline:
+            return None
+        time.sleep(3)
 
 
 def setup():
@@ -45,6 +94,17 @@ def coq_oq(v):
     return "None" if v is None else "(Some %s)" % coq_q(v)
 
 
+def coq_oxval(v):
+    """option xval: engine value (None = no output element); +-Inf only arise from quantile_over_time"""
+    if v is None:
+        return "None"
+    if v in ("+Inf", "Inf"):
+        return "(Some XPosInf)"
+    if v == "-Inf":
+        return "(Some XNegInf)"
+    return "(Some (XFin %s))" % coq_q(v)
+
+
 def coq_z(n):
     return "(%d)%%Z" % n
 
@@ -57,11 +117,23 @@ def coq_labels(lb):
     return "[" + "; ".join("(%s, %s)" % (coq_str(k), coq_str(lb[k])) for k in sorted(lb)) + "]"
 
 
-def rcase_coq(fn, t, rng, off, s):
-    samples = "[" + "; ".join("(%s, %s)" % (coq_z(p["t"]), coq_q(p["v"])) for p in (s.get("samples") or [])) + "]"
-    lens = "[" + "; ".join("%d" % k for k in (s.get("cut") or [])) + "]%nat"
-    return "(%s, %s, %s, %s, %s, %s, %s, %s)" % (fn, coq_z(t), coq_z(rng), coq_z(off), samples, lens,
-                                                  coq_oq(s.get("up")), coq_oq(s.get("sv")))
+def samples_coq(s):
+    return "[" + "; ".join("(%s, %s)" % (coq_z(p["t"]), coq_q(p["v"])) for p in (s.get("samples") or [])) + "]"
+
+
+def lens_coq(s):
+    return "[" + "; ".join("%d" % k for k in (s.get("cut") or [])) + "]%nat"
+
+
+def rcase_coq(fn, param, t, rng, off, s):
+    return "(%s, %s, %s, %s, %s, %s, %s, %s, %s)" % (fn, coq_q(param or "0"), coq_z(t), coq_z(rng), coq_z(off), samples_coq(s), lens_coq(s),
+                                                      coq_oxval(s.get("up")), coq_oxval(s.get("sv")))
+
+
+def bcase_coq(m):
+    return "(%s, %s, %s, [%s], [%s], %s, %s)" % (coq_z(m["t"]), coq_z(m.get("range_ms", 0)), coq_z(m.get("offset_ms", 0)),
+                                                  "; ".join(samples_coq(s) for s in (m.get("series") or [])), "; ".join(lens_coq(s) for s in (m.get("series") or [])),
+                                                  "true" if m.get("up_nonempty") else "false", "true" if m.get("sv_nonempty") else "false")
 
 
 def vec_coq(v):
@@ -75,7 +147,7 @@ def acase_coq(m):
 
 
 HEADER = ("From Coq Require Import String.\nFrom Coq Require Import QArith ZArith List Bool NArith.\n"
-          "From OG Require Import C18.Model C18.Corr.\nImport ListNotations.\nOpen Scope Q_scope.\n")
+          "From OG Require Import C18.Model C18.Model2 C18.Corr.\nImport ListNotations.\nOpen Scope Q_scope.\n")
 
 
 def vec_finite(v):
@@ -97,6 +169,11 @@ def main(ck):
                               "no axioms (Print Assumptions: closed under the global context)",
                               "upstream Prometheus promql.Engine + tsdb (module cache) as reference",
                               "Go harness cmd/c18 (generators, canonicaliser, finding signatures), python driver props/C18/run.py"]
+    # findings of this property's own fragment that the central known_findings.json does not list yet (the central
+    # entry wins when both exist); read-only
+    frag = os.path.join(ck.verif, "props", PID, "findings.json")
+    have = {f["id"] for f in ck.findings}
+    ck.findings += [f for f in json.load(open(frag))["findings"] if f.get("property") == PID and f["id"] not in have]
     ck.coq_audit(["C18"])
     ok = ck.coq_build(["C18/Props.vo", "C18/Refuted.vo", "C18/Corr.vo"])
     if ok:
@@ -106,7 +183,11 @@ def main(ck):
     if not binp or not srv:
         return
     conf = os.path.join(ck.repo, "config", "openGemini.singlenode.conf")
-    port = PORT_BASE + (os.getpid() % 9) * 10
+    port = acquire_port_block()
+    if port is None:
+        ck.broken.append("no free port block in 21800-21899 (all locked by other runs or something listens there)")
+        return
+    ck.log("port block %d-%d" % (port, port + 9))
     wdir = os.path.join(ck.work, "srv")
     if getattr(ck, "replay", None):
         return replay(ck, binp, srv, conf, wdir, port)
@@ -164,7 +245,7 @@ def main(ck):
                       "replay": c.get("replay")})
 
     # ---- model evaluation ------------------------------------------------------------------------------------
-    rcs, acs = [], []     # (case index, series index, coq text, meta)
+    rcs, acs, bcs = [], [], []     # (case index, series index, coq text, meta)
     skipped_nonfinite = 0
     for ci, c in enumerate(cases):
         m = c.get("model")
@@ -172,12 +253,19 @@ def main(ck):
             continue
         if m["kind"] in ("rangefn", "selector"):
             fn = FN[m["fn"]] if m["kind"] == "rangefn" else "FSelect"
-            for si, s in enumerate(m["series"]):
-                vals = [p["v"] for p in (s.get("samples") or [])] + [x for x in (s.get("up"), s.get("sv")) if x is not None]
-                if not all(finite(v) for v in vals):
+            for si, s in enumerate(m.get("series") or []):
+                vals = [p["v"] for p in (s.get("samples") or [])]
+                outs = [x for x in (s.get("up"), s.get("sv")) if x is not None]
+                # +-Inf results are expressible for quantile_over_time (q outside [0,1]); NaN never is
+                if not all(finite(v) for v in vals) or not all(finite(v) or (fn == "FQuantile" and v != "NaN") for v in outs):
                     skipped_nonfinite += 1
                     continue
-                rcs.append((ci, si, rcase_coq(fn, m["t"], m.get("range_ms", 0), m.get("offset_ms", 0), s)))
+                rcs.append((ci, si, rcase_coq(fn, m.get("param"), m["t"], m.get("range_ms", 0), m.get("offset_ms", 0), s)))
+        elif m["kind"] == "absent":
+            if not all(finite(p["v"]) for s in (m.get("series") or []) for p in (s.get("samples") or [])):
+                skipped_nonfinite += 1
+                continue
+            bcs.append((ci, 0, bcase_coq(m)))
         elif m["kind"] == "agg":
             if not (vec_finite(m.get("in") or []) and vec_finite(m.get("out_up") or []) and vec_finite(m.get("out_sv") or [])):
                 skipped_nonfinite += 1
@@ -192,10 +280,14 @@ def main(ck):
     for i in range(0, len(acs), shard):
         files.append(("ac%d" % (i // shard), HEADER + "Definition cases : list acase := [\n%s\n].\n"
                       "Definition M := Eval vm_compute in amismatches cases.\nPrint M.\n" % ";\n".join(x[2] for x in acs[i:i + shard])))
+    na = len(files) - nr
+    for i in range(0, len(bcs), shard):
+        files.append(("bc%d" % (i // shard), HEADER + "Definition cases : list bcase := [\n%s\n].\n"
+                      "Definition M := Eval vm_compute in bmismatches cases.\nPrint M.\n" % ";\n".join(x[2] for x in bcs[i:i + shard])))
     ck.log("model evaluation: %d shards" % len(files))
     res = ck.coq_eval_many(files, timeout=240) if ok else []
     ck.log("model evaluation done")
-    rmis, amis = {}, {}
+    rmis, amis, bmis = {}, {}, {}
     for idx, (rc2, o) in enumerate(res):
         mm = re.search(r"M\s*=\s*(.*?)\s*:\s*list", o, re.S)
         if rc2 != 0 or not mm:
@@ -204,8 +296,10 @@ def main(ck):
         for a, b in re.findall(r"\((\d+),\s*(\d+)(?:%N)?\)", mm.group(1)):
             if idx < nr:
                 rmis[idx * shard + int(a)] = int(b)
-            else:
+            elif idx < nr + na:
                 amis[(idx - nr) * shard + int(a)] = int(b)
+            else:
+                bmis[(idx - nr - na) * shard + int(a)] = int(b)
 
     validated = ties = variant_current = variant_repaired = 0
     model_bad = []
@@ -241,6 +335,15 @@ def main(ck):
             model_bad.append(("agg-impl-vs-server", ci, si, code))
         else:
             validated += 1
+    for k, (ci, si, _) in enumerate(bcs):
+        code = bmis.get(k, 0)
+        c = cases[ci]
+        if code & 1:
+            model_bad.append(("absent-spec-vs-upstream", ci, si, code))
+        elif (code & 2) and not (c.get("known") or c.get("unexplained")):
+            model_bad.append(("absent-impl-vs-server", ci, si, code))
+        else:
+            validated += 1
     if model_bad and not unexplained:
         kind, ci, si, code = model_bad[0]
         c = cases[ci]
@@ -265,7 +368,7 @@ def main(ck):
     ck.cov["traces_validated_against_impl"] = validated
     ck.cov["rule"] = ("one case = (data set, expression, instant time | range start/end/step); non-trivial = upstream evaluated it without "
                       "error and returned at least one point; distinct = different (expression, timing)")
-    ck.cov["model_cases"] = {"range_or_selector_series": len(rcs), "aggregations": len(acs), "threshold_ties_skipped": ties,
+    ck.cov["model_cases"] = {"range_or_selector_series": len(rcs), "aggregations": len(acs), "absent_over_time": len(bcs), "threshold_ties_skipped": ties,
                              "non_finite_skipped": skipped_nonfinite, "matched_current_only": variant_current,
                              "matched_repaired_only": variant_repaired, "model_disagreements": len(model_bad)}
     ck.cov["form_histogram"] = forms
